@@ -195,3 +195,118 @@ Proof.
   eexists. eexists. split; [vm_compute; reflexivity|]. split; [vm_compute; reflexivity|].
   split; vm_compute; reflexivity.
 Qed.
+
+(* ------------------------------------------------------------------------
+   The column texts.  Proofs in Proofs/OutputColumns.v. *)
+Set Warnings "-comment-terminator-in-string".
+(* The next comment resynchronises coqdep: unlike coqc it does not see that the
+   parenthesised star in the comment of the last example is inside a string,
+   and would otherwise miss the Require below.  "*)" *)
+Set Warnings "comment-terminator-in-string".
+From SQLair.Proofs Require Import OutputColumns.
+
+(* "tbl.* AS &T.*" and "tbl.* AS (&T.*, &M.k, ...)": the generated columns
+   are, for the targets in order, the db tags of T in byte-lexicographic order
+   (for &T.* ) or the member (for &M.k), each prefixed with "tbl."; for the
+   bare "* AS ..." (tbl empty) they are the tags / members themselves.
+   [source_columns infos t] is the sorted tag list of the struct for t = T.*
+   and [mname t] otherwise (Proofs/BindTypesFacts.v). *)
+Theorem C05_table_prefix :
+  forall env b raw tbl targets b',
+    wf_infos (b_infos b) ->
+    bind_expr env b (Output raw [BasicCol tbl star] targets) = BOk b' ->
+    exists ocs, b_infos b' = b_infos b /\ b_exprs b' = b_exprs b ++ [TOutput ocs] /\
+      let names := flat_map (source_columns (b_infos b)) targets in
+      map fst ocs = map (new_output_column tbl) names /\
+      (tbl <> [] -> map fst ocs = map (fun name => tbl ++ [46%N] ++ name) names) /\
+      (tbl = [] -> map fst ocs = names).
+Proof.
+  intros env b raw tbl targets b' W H.
+  destruct (output_star_form _ _ _ _ _ _ W (or_intror (ex_intro _ tbl eq_refl)) H) as [ocs [E1 [E2 M]]].
+  exists ocs. split; [exact E1|]. split; [exact E2|]. cbn [tableName] in M. cbv zeta.
+  split; [exact M|]. split.
+  - intros NE. rewrite M. apply map_ext. intros name. apply new_output_column_prefixed. exact NE.
+  - intros ->. rewrite M. rewrite <- (map_id (flat_map _ targets)) at 2. apply map_ext. reflexivity.
+Qed.
+Print Assumptions C05_table_prefix.
+
+(* the same for the form without columns, "&T.*" / "&M.k": bare names *)
+Theorem C05_no_columns_bare :
+  forall env b raw targets b',
+    wf_infos (b_infos b) ->
+    bind_expr env b (Output raw [] targets) = BOk b' ->
+    exists ocs, b_infos b' = b_infos b /\ b_exprs b' = b_exprs b ++ [TOutput ocs] /\
+      map fst ocs = flat_map (source_columns (b_infos b)) targets.
+Proof.
+  intros env b raw targets b' W H.
+  destruct (output_star_form _ _ _ _ _ _ W (or_introl eq_refl) H) as [ocs [E1 [E2 M]]].
+  exists ocs. split; [exact E1|]. split; [exact E2|]. rewrite M.
+  rewrite <- (map_id (flat_map _ targets)) at 2. apply map_ext. reflexivity.
+Qed.
+Print Assumptions C05_no_columns_bare.
+
+(* The column as written: "t.c" for a qualified column, "c" for a bare one,
+   the source text for a function call ... *)
+Theorem C05_column_as_written :
+  forall c, new_output_column (tableName c) (columnName c) = columnString c.
+Proof. exact new_output_column_string. Qed.
+Print Assumptions C05_column_as_written.
+
+Theorem C05_column_string_cases :
+  (forall t c, t <> [] -> columnString (BasicCol t c) = t ++ [46%N] ++ c) /\
+  (forall c, columnString (BasicCol [] c) = c) /\
+  (forall raw, columnString (FuncCol raw) = raw).
+Proof.
+  split; [|split]; try reflexivity. intros t c NE. destruct t; [congruence|reflexivity].
+Qed.
+Print Assumptions C05_column_string_cases.
+
+(* ... and in the forms with explicit columns, "(c1, c2) AS (&T.* )" and the
+   pairwise "(c1, c2) AS (&T.a, &M.b)" / "c AS &T.a" (at least one column, no
+   star column), the generated columns are exactly the columns as written, in
+   order. *)
+Theorem C05_explicit_columns_verbatim :
+  forall env b raw cols targets b',
+    cols <> [] -> starCountColumns cols = 0 ->
+    bind_expr env b (Output raw cols targets) = BOk b' ->
+    exists ocs, b_infos b' = b_infos b /\ b_exprs b' = b_exprs b ++ [TOutput ocs] /\
+      map fst ocs = map columnString cols.
+Proof. exact explicit_columns. Qed.
+Print Assumptions C05_explicit_columns_verbatim.
+
+(* every accepted output expression is of one of the three kinds above *)
+Theorem C05_output_forms :
+  forall env b raw cols targets b',
+    bind_expr env b (Output raw cols targets) = BOk b' ->
+    cols = [] \/ (exists c, cols = [c] /\ columnName c = star) \/
+    (cols <> [] /\ starCountColumns cols = 0).
+Proof. exact output_star_count. Qed.
+Print Assumptions C05_output_forms.
+
+(* (p.id, max(z)) AS (&P.id, &M.k) : the columns as written *)
+Example C05_explicit_columns_applies :
+  exists infos b',
+    generate_arg_info ex_env [Some 0; Some 4] [] = BOk infos /\
+    bind_expr ex_env {| b_infos := infos; b_used := []; b_outused := []; b_exprs := [] |}
+      (Output [] [BasicCol [112%N] s_id; FuncCol [109; 97; 120; 40; 122; 41]%N]
+                 [{| tname := [80%N]; mname := s_id |}; {| tname := [77%N]; mname := s_k |}]) = BOk b' /\
+    map (fun e => match e with TOutput ocs => map fst ocs | _ => [] end) (b_exprs b') =
+      [[[112; 46; 105; 100]; [109; 97; 120; 40; 122; 41]]]%N.
+Proof. eexists. eexists. split; [vm_compute; reflexivity|]. split; vm_compute; reflexivity. Qed.
+
+(* "p.* AS (&P.*, &M.k)": prefix on every generated column, tags sorted *)
+Example C05_table_prefix_applies :
+  exists infos b',
+    generate_arg_info ex_env [Some 0; Some 4] [] = BOk infos /\
+    flat_map (source_columns infos) [{| tname := [80%N]; mname := star |}; {| tname := [77%N]; mname := s_k |}] =
+      [s_id; s_name; s_street; s_z; s_k] /\
+    bind_expr ex_env {| b_infos := infos; b_used := []; b_outused := []; b_exprs := [] |}
+      (Output [] [BasicCol [112%N] star]
+                 [{| tname := [80%N]; mname := star |}; {| tname := [77%N]; mname := s_k |}]) = BOk b' /\
+    map (fun e => match e with TOutput ocs => map fst ocs | _ => [] end) (b_exprs b') =
+      [[[112; 46; 105; 100]; [112; 46; 110; 97; 109; 101]; [112; 46; 115; 116]; [112; 46; 122];
+        [112; 46; 107]]]%N.
+Proof.
+  eexists. eexists. split; [vm_compute; reflexivity|]. split; [vm_compute; reflexivity|].
+  split; vm_compute; reflexivity.
+Qed.
